@@ -112,3 +112,102 @@ def make_sized(spec):
     if t == "int":
         return u
     raise ValueError(t)
+
+
+# ----------------------------------------------------------------------------- documented result-type catalogue (C02)
+
+def _catalogue():
+    import numpy as np
+    import pandas as pd
+    from twosigma.memento.partition import InMemoryPartition
+    tz = dt.timezone(dt.timedelta(hours=5, minutes=30))
+    c = {
+        "none": lambda: None,
+        "true": lambda: True,
+        "false": lambda: False,
+        "int": lambda: 42,
+        "int-big": lambda: 2 ** 70,
+        "int-neg": lambda: -7,
+        "float": lambda: 3.25,
+        "nan": lambda: float("nan"),
+        "inf": lambda: float("inf"),
+        "-inf": lambda: float("-inf"),
+        "-0.0": lambda: -0.0,
+        "str": lambda: "hello",
+        "str-empty": lambda: "",
+        "str-unicode": lambda: "héllo 世界 \U0001f600",
+        "bytes": lambda: b"\x00\x01\xff",
+        "bytes-empty": lambda: b"",
+        "date": lambda: dt.date(2020, 2, 29),
+        "datetime-naive": lambda: dt.datetime(2020, 1, 2, 3, 4, 5, 678),
+        "datetime-utc": lambda: dt.datetime(2020, 1, 2, 3, 4, 5, tzinfo=dt.timezone.utc),
+        "datetime-offset": lambda: dt.datetime(2020, 1, 2, 3, 4, 5, tzinfo=tz),
+        "timestamp": lambda: pd.Timestamp("2020-01-02 03:04:05.000000678"),
+        "timestamp-tz": lambda: pd.Timestamp("2020-01-02 03:04:05", tz="UTC"),
+        "list": lambda: [1, "a", 2.5, None, True],
+        "list-empty": lambda: [],
+        "list-nested": lambda: [[1, [2, [3, {"k": [4]}]]], {"a": {"b": [dt.date(2021, 1, 1), float("nan")]}}],
+        "dict": lambda: {"a": 1, "b": "x", "c": [1, 2], "d": {"e": None}},
+        "dict-empty": lambda: {},
+        "dict-order": lambda: {"z": 1, "a": 2, "m": 3},
+        "arr-bool": lambda: np.array([True, False, True]),
+        "arr-int8": lambda: np.array([1, -2, 3], dtype=np.int8),
+        "arr-int16": lambda: np.array([1, -2, 300], dtype=np.int16),
+        "arr-int32": lambda: np.array([1, -2, 70000], dtype=np.int32),
+        "arr-int64": lambda: np.array([1, -2, 2 ** 40], dtype=np.int64),
+        "arr-float32": lambda: np.array([1.5, float("nan"), -0.0], dtype=np.float32),
+        "arr-float64": lambda: np.array([1.5, float("inf"), 2.5e-300], dtype=np.float64),
+        "arr-2d": lambda: np.arange(6, dtype=np.int64).reshape(2, 3),
+        "arr-2d-float": lambda: np.array([[1.0, float("nan")], [3.0, 4.0]]),
+        "arr-empty": lambda: np.array([], dtype=np.float64),
+        "index": lambda: pd.Index([3, 1, 2], name="ix"),
+        "index-str": lambda: pd.Index(["a", "b"]),
+        "series": lambda: pd.Series([1.5, 2.5, float("nan")], name="s"),
+        "series-named-index": lambda: pd.Series([1, 2], index=pd.Index(["a", "b"], name="k"), name="v"),
+        "series-multiindex": lambda: pd.Series([1, 2, 3], index=pd.MultiIndex.from_tuples([("a", 1), ("a", 2), ("b", 1)], names=["l", "n"])),
+        "series-empty": lambda: pd.Series([], dtype=np.float64),
+        "frame": lambda: pd.DataFrame({"a": [1, 2, 3], "b": ["x", "y", None], "c": [1.5, float("nan"), 3.0]}),
+        "frame-named-index": lambda: pd.DataFrame({"a": [1, 2]}, index=pd.Index([10, 20], name="id")),
+        "frame-multiindex": lambda: pd.DataFrame({"v": [1.0, 2.0]}, index=pd.MultiIndex.from_tuples([("a", 1), ("b", 2)], names=["x", "y"])),
+        "frame-empty": lambda: pd.DataFrame({"a": []}),
+        "frame-dates": lambda: pd.DataFrame({"t": pd.to_datetime(["2020-01-01", "2020-01-02"]), "n": [1, 2]}),
+        "partition": lambda: InMemoryPartition({"a": [1, 2], "b": "text", "c": np.array([1, 2, 3], dtype=np.int64)}),
+        "partition-frames": lambda: InMemoryPartition({"x": pd.DataFrame({"a": [1, 2]}), "y": pd.Series([1.0, 2.0])}),
+        "partition-empty": lambda: InMemoryPartition({}),
+        "partition-nested": lambda: InMemoryPartition({"outer": 1, "inner": InMemoryPartition({"k": [1, 2, 3]})}),
+        "partition-ondisk": _ondisk,
+    }
+    return c
+
+
+def _ondisk():
+    import pandas as pd
+    from twosigma.memento.storage_filesystem import OnDiskPartition
+    p = OnDiskPartition()
+    p["a"] = [1, 2, 3]
+    p["b"] = pd.DataFrame({"q": [1.0, 2.0]})
+    return p
+
+
+_CAT = None
+
+
+def kinds():
+    global _CAT
+    if _CAT is None:
+        _CAT = _catalogue()
+    return sorted(_CAT)
+
+
+def build(kind, salt=0):
+    """A fresh object of the given kind; salt > 0 wraps it so that distinct calls have distinct values."""
+    global _CAT
+    if _CAT is None:
+        _CAT = _catalogue()
+    v = _CAT[kind]()
+    return v
+
+
+def nest(kind_list):
+    """list / dict nesting of catalogue values (non-partition kinds)"""
+    return {"items": [build(k) for k in kind_list], "by_name": {k: build(k) for k in kind_list}}
